@@ -78,6 +78,20 @@ pub fn last_site_of(tid: usize) -> String {
 }
 
 /// scheduling point used by the simulated reader / writer and by `tick`
+/// Called by the simulated reader and writer: `site` becomes the last site of the job (not a tick: no fuel is
+/// spent), so that a job stuck while it reads or emits - e.g. in a loop of the builder, which has no tick
+/// hooks - is attributed to "input.read" / "output.write" rather than to the last tick of the generator.
+pub fn io_point(site: &'static str) {
+    CTX.with(|c| {
+        let mut g = c.borrow_mut();
+        if let Some(ctx) = g.as_mut() {
+            ctx.last_site = site;
+            publish_site(ctx.tid, site);
+        }
+    });
+    sched_point();
+}
+
 pub fn sched_point() {
     CTX.with(|c| {
         let mut g = c.borrow_mut();
